@@ -4,6 +4,7 @@ import (
 	"bytes"
 	"fmt"
 	"strings"
+	"time"
 )
 
 // C06 - MaxMessageBytes bounds what a backend is handed and what is accepted.
@@ -20,9 +21,10 @@ type c06X struct {
 	MailOK      bool   // reference: MAIL must be accepted
 	Expect      []string
 	Pre         int
-	Prelude     int // an earlier transaction on the same connection: 0 none, 1 BDAT completed within the limit, 2 a chunk then RSET, 3 BDAT refused for its size, 4 DATA completed within the limit
-	MailIdx     int // index of the reply to the judged MAIL
-	DataIdx     int // index of the judged message among the backend\'s Data calls
+	Prelude     int  // an earlier transaction on the same connection: 0 none, 1 BDAT completed within the limit, 2 a chunk then RSET, 3 BDAT refused for its size, 4 DATA completed within the limit
+	MailIdx     int  // index of the reply to the judged MAIL
+	ReadOn      bool // DATA: the client pauses past ReadTimeout inside the message, the backend takes the timeout as temporary and reads on
+	DataIdx     int  // index of the judged message among the backend\'s Data calls
 	NFinal      int
 }
 
@@ -168,6 +170,21 @@ func genC06(t *Tape, tier string) *Scenario {
 			stream := append(append([]byte{}, x.Msg...), ".\r\n"...)
 			steps = append(steps, Step{Kind: kData, Data: []byte("DATA\r\n"), Wait: 1},
 				Step{Kind: kBody, Data: stream, Need: 354, Segs: drawSegs(t, len(stream), []int{x.N - 1, x.N, x.N + 1, len(stream) - 3}), Gaps: drawGaps(t), Wait: w() * -1})
+			if x.Size > 3 && t.Chance(1, 10) {
+				// fault stratum: a read of the backend returns some octets together with a timeout
+				// (the client pauses past ReadTimeout), and the backend goes on reading after
+				// pushing the deadline forward: the budget still counts what it was handed
+				x.ReadOn = true
+				sc.Srv.ReadTO = 10 * time.Minute
+				b := &steps[len(steps)-1]
+				k := 1 + t.Intn(x.Size-2)
+				b.Segs = []int{k, len(stream)}
+				b.Gaps = []Dur{0, 11 * time.Minute}
+				b.Wait = -1
+				for i := range sc.BE.Conns[0].Data {
+					sc.BE.Conns[0].Data[i].ReadOnAfterTimeout = true
+				}
+			}
 			x.Expect = append(x.Expect, "354")
 			if x.Size > x.N {
 				x.Expect = append(x.Expect, "552")
@@ -252,6 +269,23 @@ func checkC06(sc *Scenario, h *History) []Violation {
 		}
 	}
 	if len(out) > 0 {
+		return out
+	}
+	if x.ReadOn {
+		// only the bound itself is judged: never more than N octets, never complete when longer
+		evs := dataEvents(h, 0)
+		if len(evs) > x.DataIdx {
+			ev := evs[x.DataIdx]
+			if len(ev.Read) > x.N {
+				out = append(out, Violation{Rule: "C06.bound", Detail: fmt.Sprintf("backend read %d octets with a limit of %d (it read on after a timeout inside the message)", len(ev.Read), x.N), Witness: wit})
+			}
+			if !bytes.HasPrefix(x.Msg, ev.Read) {
+				out = append(out, Violation{Rule: "C06.octets", Detail: "backend octets are not a prefix of the message", Witness: wit})
+			}
+			if x.Size > x.N && ev.SawEOF {
+				out = append(out, Violation{Rule: "C06.over-limit-complete", Detail: fmt.Sprintf("a message of %d octets was presented as complete (EOF) under a limit of %d", x.Size, x.N), Witness: wit})
+			}
+		}
 		return out
 	}
 	if len(replies) != x.Pre+len(x.Expect) {
@@ -339,6 +373,14 @@ func classifyC06(sc *Scenario, h *History, st *Stats) string {
 	if x.SizeKind != 0 {
 		st.Probes["size_parameter"]++
 	}
+	if x.ReadOn {
+		for _, e := range dataEvents(h, 0) {
+			if e.readOns > 0 {
+				st.Faults["backend_reads_on_after_timeout_inside_message"]++
+				break
+			}
+		}
+	}
 	if x.Prelude > 0 {
 		st.Probes["earlier_transaction_"+[]string{"", "BDAT_completed", "chunk_then_RSET", "BDAT_refused_for_size", "DATA_completed"}[x.Prelude]]++
 	}
@@ -372,7 +414,7 @@ func init() {
 		Real:        []string{"smtp.Server.Serve/handleConn", "smtp.Conn handleMail SIZE check, handleData, handleBdat", "dataReader budget", "io.Pipe", "net/textproto", "bufio"},
 		Stub:        []string{"net.Listener (SimListener)", "net.Conn (SimConn)", "Backend/Session (SimBackend; returns the reader's error like io.ReadAll-based backends)", "clock (synctest)", "SMTP client (raw driver)"},
 		Assumptions: []string{"message size is judged on messages without dot-stuffing, where wire size and backend size coincide", "the backend propagates a reader error as its verdict"},
-		Required:    []string{"size_N+0", "size_N+1", "size_N-1", "size_far_above", "via_bdat", "via_data", "size_parameter", "earlier_transaction_BDAT_completed", "earlier_transaction_chunk_then_RSET", "earlier_transaction_BDAT_refused_for_size", "earlier_transaction_DATA_completed"},
+		Required:    []string{"size_N+0", "size_N+1", "size_N-1", "size_far_above", "via_bdat", "via_data", "size_parameter", "earlier_transaction_BDAT_completed", "earlier_transaction_chunk_then_RSET", "earlier_transaction_BDAT_refused_for_size", "earlier_transaction_DATA_completed", "backend_reads_on_after_timeout_inside_message"},
 		QuickRuns:   200000, ThoroughRuns: 4000000,
 	})
 }
